@@ -281,6 +281,58 @@ class Ctx:
             'note': 'must-fire variants break one armed instance on a '
                     'scratch copy of the current tree; twins are '
                     'behaviour-preserving rewrites that must stay silent'}
+        # (e) independently seeded breaking changes of this property
+        # (seeded/<id>/patch.diff, written by sub-agents that saw only the
+        # property text): each is applied to a scratch copy of the current
+        # tree and must make this property's quick check fire
+        import shutil
+        import subprocess
+        import tempfile
+        sroot = os.path.join(VERIF, 'seeded')
+        seeds = sorted(d for d in (os.listdir(sroot)
+                                   if os.path.isdir(sroot) else [])
+                       if d.startswith(self.prop + '-') and os.path.exists(
+                           os.path.join(sroot, d, 'patch.diff')))
+
+        def one(sid: str) -> dict:
+            tmp = tempfile.mkdtemp(prefix='pymap-seed-')
+            try:
+                shutil.copytree(os.path.join(self.proj.root, 'pymap'),
+                                os.path.join(tmp, 'pymap'),
+                                ignore=shutil.ignore_patterns('__pycache__'))
+                pr = subprocess.run(
+                    ['patch', '-p1', '-s', '-i',
+                     os.path.join(sroot, sid, 'patch.diff')], cwd=tmp,
+                    capture_output=True, text=True)
+                if pr.returncode != 0:
+                    return {'id': sid, 'status': 'does-not-apply'}
+                env = dict(os.environ, PYMAP_ROOT=tmp, SA_NO_EVIDENCE='1',
+                           SA_NO_CACHE_WRITE='1', VERIF_TIER='quick')
+                r = subprocess.run([os.path.join(VERIF, 'check'), self.prop],
+                                   cwd=VERIF, env=env, capture_output=True,
+                                   text=True, timeout=900)
+                rules = sorted({w.split('=', 1)[1]
+                                for line in r.stdout.splitlines()
+                                if line.startswith('  ')
+                                for w in line.split()
+                                if w.startswith('rule=')})
+                return {'id': sid, 'status': {0: 'MISSED', 1: 'caught'}.get(
+                    r.returncode, 'undecided (exit 2)'), 'rules': rules}
+            finally:
+                shutil.rmtree(tmp, ignore_errors=True)
+        with ThreadPoolExecutor(int(os.environ.get('SA_JOBS', '16'))) as ex:
+            sres = list(ex.map(one, seeds))
+        self.extra_coverage['seeded_changes'] = {
+            'total': len(sres),
+            'caught': sum(1 for r in sres if r['status'] == 'caught'),
+            'results': sres,
+            'note': 'regression figure: the rules were strengthened against '
+                    'these changes after they arrived; what the checks said '
+                    'BEFORE is in seeded/TABLE.md and DESIGN.md section 14'}
+        for r in sres:
+            if r['status'] != 'caught':
+                errors.append(f"seeded change {r['id']} is no longer caught "
+                              f"({r['status']})")
         return errors
 
     def _write_evidence(self, total, ok, undec, nknown, nviol, nontrivial,
